@@ -1592,14 +1592,24 @@ bool MEDDLY::dd_edge::getElemInt(long index, minterm &m) const
     unpacked_node* U = unpacked_node::New(fp, SPARSE_ONLY);
     for (unsigned k = fp->getNumVariables(); k; --k) {
         //
-        // I don't think index sets can skip levels at all
+        // Index sets skip a level only when its variable has a single
+        // value (the children of a node carry distinct offsets).
         //
         if (fp->isTerminalNode(p)) {
-            // Empty set (or nothing below): no element has this index.
-            unpacked_node::Recycle(U);
-            return false;
+            if (OMEGA_INFINITY == p) {
+                // Empty set: no element has this index.
+                unpacked_node::Recycle(U);
+                return false;
+            }
+            // Everything below is skipped
+            m.from(k) = 0;
+            continue;
         }
-        MEDDLY_DCASSERT(k == fp->getNodeLevel(p));
+        if (int(k) != fp->getNodeLevel(p)) {
+            // Level k is skipped
+            m.from(k) = 0;
+            continue;
+        }
         U->initFromNode(p);
 
         //
@@ -1654,14 +1664,24 @@ bool MEDDLY::dd_edge::getElemLong(long index, minterm &m) const
     unpacked_node* U = unpacked_node::New(fp, SPARSE_ONLY);
     for (unsigned k = fp->getNumVariables(); k; --k) {
         //
-        // I don't think index sets can skip levels at all
+        // Index sets skip a level only when its variable has a single
+        // value (the children of a node carry distinct offsets).
         //
         if (fp->isTerminalNode(p)) {
-            // Empty set (or nothing below): no element has this index.
-            unpacked_node::Recycle(U);
-            return false;
+            if (OMEGA_INFINITY == p) {
+                // Empty set: no element has this index.
+                unpacked_node::Recycle(U);
+                return false;
+            }
+            // Everything below is skipped
+            m.from(k) = 0;
+            continue;
         }
-        MEDDLY_DCASSERT(k == fp->getNodeLevel(p));
+        if (int(k) != fp->getNodeLevel(p)) {
+            // Level k is skipped
+            m.from(k) = 0;
+            continue;
+        }
         U->initFromNode(p);
 
         //
